@@ -3,6 +3,7 @@
 //   (other kinds are added below: 50 VectorT programs, 60 RNG, 70 covariance optimisation cache, 80 kriging calls)
 #include "sx.hpp"
 #include <map>
+#include <algorithm>
 #include <memory>
 #include <functional>
 #include <unistd.h>
@@ -415,6 +416,28 @@ static std::string run_krig(const Sx& c) {
   return "(" + (c1 ? std::string("(-996)") : a) + " " + (c2 ? std::string("(-996)") : b) + ")";
 }
 
+// ------------------------------------------------------------------ 81: neighbourhood memo of ANeigh::select
+//  (81 dbin dbout (nmaxi radius) (targets...)) -> per call (sorted ranks, isUnchanged), then per distinct target the ranks of a fresh object
+static std::string sorted_ranks(VectorInt r) { std::vector<int> v(r.getVector().begin(), r.getVector().end()); std::sort(v.begin(), v.end()); return sx_vi(v); }
+static std::string run_memo(const Sx& c) {
+  bool crashed = false;
+  std::string out = in_child([&](int fd) {
+    Db* dbin = mkdb(c[1]); Db* dbout = mkdb(c[2]);
+    NeighMoving* ng = NeighMoving::create(false, (int) c[3][0].i(), c[3][1].d(), 1, 1);
+    ng->attach(dbin, dbout);
+    std::string a = "(";
+    for (auto& t : c[4].l) { VectorInt r; ng->select((int) t.i(), r); a += "(" + sorted_ranks(r) + " " + (ng->isUnchanged() ? "1" : "0") + ")"; }
+    a += ") (";
+    for (int t = 0; t < dbout->getSampleNumber(); t++) {
+      NeighMoving* f = NeighMoving::create(false, (int) c[3][0].i(), c[3][1].d(), 1, 1);
+      f->attach(dbin, dbout); VectorInt r; f->select(t, r);
+      a += "(" + std::to_string(t) + " " + sorted_ranks(r) + ")"; delete f;
+    }
+    wr(fd, a + ")");
+  }, crashed);
+  return "(" + out + (crashed ? " (-996)" : "") + ")";
+}
+
 // ------------------------------------------------------------------ dispatch
 static std::string run(const Sx& c) {
   long long kind = c[0].i();
@@ -426,6 +449,7 @@ static std::string run(const Sx& c) {
   if (kind == 61) return run_rng(c, true);
   if (kind == 70) return run_cov(c);
   if (kind == 80) return run_krig(c);
+  if (kind == 81) return run_memo(c);
   return "(-997 1)";
 }
 int main(int argc, char** argv) { return sx_main(argc, argv, run); }
